@@ -21,6 +21,7 @@ def run(ctx):
     cg = mirlib.CallGraph(prog)
     skippers.arms_agree(rep, 'R07.c', prog)
     skippers.struct_loop(rep, 'R07.h', prog)
+    skippers.struct_pairing(rep, 'R07.p', prog)
     skippers.default_skipper_widths(rep, 'R07.a', prog, cg)
     skippers.depth_budget(rep, 'R07.e', prog, include_unsafe=True)
     skippers.progress(rep, 'R07.g', prog)
